@@ -129,7 +129,8 @@ def measure (n : Nat) (s : St α β) : Nat :=
 
 /-! ## Protocol (driver side)
 
-    Case line:  `n=<n> pool=<nil|int> mode=<o|r> ty=<i|s> hold=<0|1> seed=<k>`
+    Case line:  `n=<n> pool=<nil|int> mode=<o|r> ty=<i|s> hold=<0|1|2> seed=<k> [nest=<m>]`
+                or `reuse pool=… mode=… ty=… hold=… seed=…: n=<n1> ; n=<n2> ; …` (one option object, several calls)
     The list is `elem seed i` for `i < n`; `f x = 3x+1` (ints) / `x ↦ x ++ "!"` (strings `s%03d`).
     Observation: `res=[…] once=ok maxc=<…> after=ok`; the result is sorted in RandomOrder mode.
     `hold=1`: every call of `f` waits until as many calls are in progress as the statement allows workers, so the maximal
@@ -152,28 +153,54 @@ structure Case where
   str : Bool
   hold : Bool
   seed : Nat
+  nest : Nat := 0   -- > 0: `f` itself calls PMap on the list x, x+1, …, x+nest-1 and returns the sum of the results
 
 def parseKV (tok key : String) : Option String :=
   match tok.splitOn "=" with
   | [k, v] => if k = key then some v else none
   | _ => none
 
-def parseCase (line : String) : Option Case :=
-  match (line.splitOn " ").filter (· ≠ "") with
-  | [a, b, c, d, h, e] =>
+def parseCaseToks (toks : List String) : Option Case :=
+  let core (a b c d h e : String) (nest : Nat) : Option Case :=
     match parseKV a "n", parseKV b "pool", parseKV c "mode", parseKV d "ty", parseKV h "hold", parseKV e "seed" with
     | some n, some p, some m, some t, some h, some s =>
       match n.toNat?, (if p = "nil" then some none else p.toInt?.map some), s.toNat? with
       | some n, some p, some s =>
-        if (m = "o" ∨ m = "r") ∧ (t = "i" ∨ t = "s") ∧ (h = "0" ∨ h = "1" ∨ h = "2") then some ⟨n, p, m = "r", t = "s", h = "1", s⟩
+        if (m = "o" ∨ m = "r") ∧ (t = "i" ∨ t = "s") ∧ (h = "0" ∨ h = "1" ∨ h = "2") then
+          some ⟨n, p, m = "r", t = "s", h = "1", s, nest⟩
         else none
       | _, _, _ => none
     | _, _, _, _, _, _ => none
+  match toks with
+  | [a, b, c, d, h, e] => core a b c d h e 0
+  | [a, b, c, d, h, e, g] =>
+    match (parseKV g "nest").bind String.toNat? with
+    | some k => core a b c d h e k
+    | none => none
+  | _ => none
+
+def parseCase (line : String) : Option Case := parseCaseToks ((line.splitOn " ").filter (· ≠ ""))
+
+/-- `reuse pool=… mode=… ty=… hold=… seed=…: n=<n1> ; n=<n2> ; …` — ONE PMapOption object passed to several PMap calls in a
+    row; every call is an ordinary case with that pool size (PMap only reads the option), and the object is unchanged at
+    the end (`opt=ok`). -/
+def parseReuse (line : String) : Option (List Case) :=
+  match line.splitOn ": " with
+  | [head, body] =>
+    match (head.splitOn " ").filter (· ≠ "") with
+    | "reuse" :: rest =>
+      let ops := ((body.splitOn ";").map (fun t => t.trimAscii.toString)).filter (· ≠ "")
+      ops.mapM (fun op => parseCaseToks (op :: rest))
+    | _ => none
   | _ => none
 
 def inputList (c : Case) : List Nat := (List.range c.n).map (elem c.seed)
 
-def renderOut (c : Case) (x : Nat) : String := if c.str then "s" ++ pad3 x ++ "!" else toString (fInt x)
+/-- the nested `f`: the sum of `PMap(fInt, nil, x, x+1, …, x+m-1)` -/
+def fNest (m x : Nat) : Nat := (List.range m).foldl (fun a j => a + fInt (x + j)) 0
+
+def renderOut (c : Case) (x : Nat) : String :=
+  if c.str then "s" ++ pad3 x ++ "!" else if c.nest = 0 then toString (fInt x) else toString (fNest c.nest x)
 
 def render (c : Case) (xs : List Nat) : String := "[" ++ " ".intercalate (xs.map (renderOut c)) ++ "]"
 
@@ -199,9 +226,12 @@ def expectedObs (c : Case) : String :=
   obsLine c (inputList c) (if workerCount c.pool c.n ≤ specWorkers c.pool c.n then "ok" else toString (workerCount c.pool c.n))
 
 def handle (line : String) : String :=
-  match parseCase line with
-  | none => "bad-case"
-  | some c => expectedObs c
+  match parseReuse line with
+  | some cs => " | ".intercalate (cs.map expectedObs ++ ["opt=ok"])
+  | none =>
+    match parseCase line with
+    | none => "bad-case"
+    | some c => expectedObs c
 
 /-! ### Spec-level oracle: `Map(f, list)` (a permutation of it in RandomOrder mode — compared sorted), at most
     `min(FixedPool, n)` goroutines (`n` when no pool size is given), every element once, returns after all
@@ -210,18 +240,34 @@ def handle (line : String) : String :=
 def maxcAllowed (tok : String) (bound : Nat) : Bool :=
   tok = "ok" || (match tok.toNat? with | some k => k ≤ bound | none => false)
 
+def demand (c : Case) : String := s!"{obsLine c (inputList c) "ok"} with maxc <= {specWorkers c.pool c.n}"
+
+/-- one PMap call against the statement -/
+def judgeOne (c : Case) (impl : String) : Bool :=
+  match (impl.splitOn " maxc=") with
+  | [pre, post] =>
+    match post.splitOn " " with
+    | [mc, aft] => pre ++ " maxc=ok " ++ aft = obsLine c (inputList c) "ok" && maxcAllowed mc (specWorkers c.pool c.n)
+    | _ => false
+  | _ => false
+
+def judgeAll : List Case → List String → Bool
+  | [], [o] => o = "opt=ok"
+  | c :: cs, o :: os => judgeOne c o && judgeAll cs os
+  | _, _ => false
+
 def judge (line impl : String) : String :=
-  match parseCase line with
-  | none => "violation unparsable case"
-  | some c =>
-    match (impl.splitOn " maxc=") with
-    | [pre, post] =>
-      match post.splitOn " " with
-      | [mc, aft] =>
-        if pre ++ " maxc=ok " ++ aft = obsLine c (inputList c) "ok" ∧ maxcAllowed mc (specWorkers c.pool c.n) then
-          "allowed result = Map(f, list), each element once, concurrency within the bound, returned after all applications"
-        else s!"violation the property demands: {obsLine c (inputList c) "ok"} with maxc <= {specWorkers c.pool c.n}"
-      | _ => s!"violation the property demands: {obsLine c (inputList c) "ok"} with maxc <= {specWorkers c.pool c.n}"
-    | _ => s!"violation the property demands: {obsLine c (inputList c) "ok"} with maxc <= {specWorkers c.pool c.n}"
+  match parseReuse line with
+  | some cs =>
+    if judgeAll cs (impl.splitOn " | ") then
+      "allowed every call: result = Map(f, list), once, concurrency within the bound of the option as passed; option unchanged"
+    else s!"violation the property demands, for the option as the caller set it: {" | ".intercalate (cs.map demand)} | opt=ok"
+  | none =>
+    match parseCase line with
+    | none => "violation unparsable case"
+    | some c =>
+      if judgeOne c impl then
+        "allowed result = Map(f, list), each element once, concurrency within the bound, returned after all applications"
+      else s!"violation the property demands: {demand c}"
 
 end FpgoVerif.C16
